@@ -21,8 +21,8 @@ ASSUMPTIONS = ["nodes below a fixed/overridden node may be omitted from evaluate
 @st.composite
 def case_strategy(draw, tier):
     c = draw(common.model_case(guard=200, n_points=(8, 24), depth=3 if tier == "quick" else 4, allow_fix=True,
-                               allow_const_leaves=True, profile=draw(st.sampled_from(["small", "small", "large"]))))
-    c["forms"] = draw(st.lists(st.integers(0, 3), min_size=1, max_size=8))
+                               allow_const_leaves=True, profile=draw(st.sampled_from(["small", "small", "large", "huge"]))))
+    c["forms"] = draw(st.lists(st.integers(0, 5), min_size=1, max_size=8))
     c["ov"] = draw(st.lists(st.tuples(st.integers(0, 30), st.integers(0, 1), st.integers(0, 2)), max_size=3)) \
         if draw(st.booleans()) else []
     c["ov"] = [list(x) for x in c["ov"]]
@@ -38,7 +38,13 @@ def _form(v, f):
         return (v, v)
     if f == 2:
         return puan.Bounds(v, v)
-    return np.int64(v)
+    if f == 3:
+        return np.int64(v)
+    if f == 4:
+        return common.narrow(v)
+    # (narrow numpy integers INSIDE tuples / Bounds are not generated: the annotations say Tuple[int, int], only scalar
+    #  numpy integers are explicitly accepted and cast, and the unchanged library already overflows on the sign flip for them)
+    return common.narrow(v, unsigned_ok=True)
 
 
 def reachable(m, cut_ids):
@@ -88,7 +94,7 @@ def check(case, ev):
             break
         interp = {i: _form(env[i], forms[(j + n) % len(forms)]) for j, i in enumerate(ids)}
         for cid, val in overrides.items():
-            interp[cid] = _form(val, ov_forms[cid] if ov_forms[cid] != 3 else 0)
+            interp[cid] = _form(val, ov_forms[cid] if ov_forms[cid] < 3 else 0)
         mm = build.model(spec) if overrides else m
         res = call(mm.evaluate_propositions, interp, what="evaluate_propositions")
         memo = {}
@@ -142,7 +148,7 @@ def _show(interp):
 def shapes(slice_i, n):
     from vf import strategies as S
     for spec in S.small_shapes(slice_i, n):
-        yield {"model": spec, "points": None, "forms": [0, 1, 2, 3], "ov": []}
+        yield {"model": spec, "points": None, "forms": [0, 4, 1, 5, 2, 3], "ov": []}
 
 
 def parts(tier):
